@@ -461,13 +461,43 @@ class Enc:
 
 
 class Translator:
-    def __init__(self, fns, enc, src_root="/repo", inline_depth=4):
+    def __init__(self, fns, enc, src_root="/repo", inline_depth=4, stubs=None):
+        self.stubs = stubs or []
+        self.stub_syms = []
+        self.stubs_used = []
         self.fns = fns
         self.enc = enc
         self.src_root = src_root
         self.inline_depth = inline_depth
         self.callees_used = set()
         self._impl_index = None
+
+    def sym_of_type(self, ty, hint, syms=None):
+        """fresh symbolic value of a (simple) Rust type; declared symbols are appended to syms as (name, ty)"""
+        e = self.enc
+        ty = ty.strip()
+        while ty.startswith("&"):
+            ty = ty[1:].strip()
+            if ty.startswith("mut "):
+                ty = ty[4:]
+        if ty in INT_W or ty in ("f64", "bool"):
+            n = e.new(ty, hint)
+            if syms is not None:
+                syms.append((n, ty))
+            if e.mode == "math" and ty in INT_W:
+                e.side.append(e.in_range(ty, n))
+            return V(ty, n)
+        m = re.fullmatch(r"(?:std|core)::option::Option<(.+)>", ty)
+        if m:
+            d = e.new("bool", hint + "_some")
+            if syms is not None:
+                syms.append((d, "bool"))
+            inner = self.sym_of_type(m.group(1), hint + "_v", syms)
+            return En("Option", "(ite %s 1 0)" % d, {0: [], 1: [inner]})
+        m = re.fullmatch(r"\((.*)\)", ty)
+        if m:
+            return Tup([self.sym_of_type(t, "%s_%d" % (hint, i), syms) for i, t in enumerate(split_top(m.group(1)))])
+        return Opaque(ty)
 
     # ---- operands / places
     def const(self, c, want_ty=None):
@@ -492,6 +522,9 @@ class Translator:
             return V("f64", e.f_const(val))
         if c.startswith("ZeroSized") or c.startswith("{closure") or c == "()":
             return Opaque(c)
+        m = re.fullmatch(r"(?:std|core)::option::Option::<.+>::None", c)
+        if m:
+            return En("Option", "0", {0: []})
         m = re.fullmatch(r"(?:std::f64::consts|core::f64::consts)::(PI|E)", c)
         if m:
             import math
@@ -536,6 +569,9 @@ class Translator:
                 b = self.place(st, base)
                 if isinstance(b, Tup):
                     return b.items[k]
+                if isinstance(b, LazyEnv):
+                    ty = re.match(r"\.\d+: (.+)$", inner[pos:]).group(1)
+                    return b.field(k, ty, self)
                 raise NotTranslatable("projection on %r" % (b,))
         raise NotTranslatable("place %r" % p)
 
@@ -547,6 +583,8 @@ class Translator:
 
     def operand(self, st, o):
         o = o.strip()
+        if o.startswith("no_retag "):
+            o = o[9:]
         if o.startswith("copy "):
             return self.place(st, o[5:])
         if o.startswith("move "):
@@ -581,6 +619,8 @@ class Translator:
     def rvalue(self, st, rv, fn, dest_ty=None):
         e = self.enc
         rv = rv.strip()
+        if rv.startswith("no_retag "):
+            rv = rv[9:]
         if rv.startswith(("copy ", "move ", "const ")):
             # could be a cast "copy _2 as f64 (IntToFloat)"
             m = re.fullmatch(r"((?:copy|move|const) .+?) as (\S+) \((\w+)(?:\(.*\))?\)", rv)
@@ -696,7 +736,7 @@ class Translator:
         c = re.sub(r"::<[^()]*>$", "", c)  # trailing turbofish
         return c
 
-    def call(self, st, callee, args, fn, depth):
+    def call(self, st, callee, args, fn, depth, dest_ty=None):
         """returns (value, panic_term, diverges)"""
         e = self.enc
         c = self.norm_callee(callee)
@@ -707,6 +747,11 @@ class Translator:
             if not isinstance(a[i], V):
                 raise NotTranslatable("callee %s on non-scalar" % c)
             return a[i]
+
+        for rx, handler in self.stubs:
+            if re.fullmatch(rx, c):
+                self.stubs_used.append(c)
+                return handler(self, c, a, dest_ty)
 
         m = re.fullmatch(r"core::num::<impl (i\d+|isize)>::saturating_(add|sub|mul)", c)
         if m:
@@ -723,6 +768,18 @@ class Translator:
                 ovf = "(and (= %s %s) (= %s (- 1)))" % (a[0].t, int_lit(lo), a[1].t)
                 zero = "(= %s 0)" % a[1].t
             return V(ty, ite(ovf, e.int_const(ty, hi), q)), zero
+        m = re.fullmatch(r"core::num::<impl (i\d+|isize)>::(wrapping_rem|wrapping_div|checked_rem|checked_div)", c)
+        if m:
+            ty, f = m.group(1), m.group(2)
+            lo, hi = e.irange(ty)
+            op = "Rem" if f.endswith("rem") else "Div"
+            v, _p = e.ibin(op, ty, scal(0).t, scal(1).t)
+            zero = "(= %s %s)" % (a[1].t, e.int_const(ty, 0))
+            ovf = "(and (= %s %s) (= %s %s))" % (a[0].t, e.int_const(ty, lo), a[1].t, e.int_const(ty, -1))
+            wrapped = ite(ovf, e.int_const(ty, 0) if op == "Rem" else e.int_const(ty, lo), v)
+            if f.startswith("wrapping"):
+                return V(ty, wrapped), zero
+            return En("Option", ite(lor([zero, ovf]), "0", "1"), {0: [], 1: [V(ty, v)]}), "false"
         m = re.fullmatch(r"core::num::<impl (i\d+|isize)>::(abs|signum|wrapping_abs)", c)
         if m:
             ty, f = m.group(1), m.group(2)
@@ -807,6 +864,59 @@ class Translator:
                     return None, "true"
                 return v.variants[good][0], "(not (= %s %d))" % (v.disc, good)
             raise NotTranslatable("unwrap of non-enum")
+        m = re.fullmatch(r"<(\w+) as TryFrom<(\w+)>>::try_from", c)
+        if m and m.group(1) in INT_W and m.group(2) in INT_W:
+            dst, srcty = m.group(1), m.group(2)
+            x = scal(0)
+            lo, hi = e.irange(dst)
+            slo, shi = e.irange(srcty)
+            conds = []
+            if e.mode == "bv":
+                ws = INT_W[srcty]
+                if slo < lo:
+                    conds.append("(bvsge %s %s)" % (x.t, e.int_const(srcty, lo)))
+                if shi > hi:
+                    conds.append(("(bvsle %s %s)" if is_signed(srcty) else "(bvule %s %s)") % (x.t, e.int_const(srcty, hi)))
+            else:
+                if slo < lo:
+                    conds.append("(>= %s %s)" % (x.t, int_lit(lo)))
+                if shi > hi:
+                    conds.append("(<= %s %s)" % (x.t, int_lit(hi)))
+            okc = land(conds)
+            conv = self.cast(x, dst, "IntToInt")
+            return En("Result", ite(okc, "0", "1"), {0: [conv], 1: [Opaque("TryFromIntError")]}), "false"
+        m = re.fullmatch(r"(?:std|core)::result::Result::<.+>::(unwrap_or|is_ok|is_err|ok)", c)
+        if m:
+            v = a[0]
+            if not isinstance(v, En):
+                raise NotTranslatable("Result method on %r" % (v,))
+            f = m.group(1)
+            if f == "is_ok":
+                return V("bool", "(= %s 0)" % v.disc), "false"
+            if f == "is_err":
+                return V("bool", "(= %s 1)" % v.disc), "false"
+            if f == "ok":
+                return En("Option", "(ite (= %s 0) 1 0)" % v.disc, {0: [], 1: v.variants.get(0, [])}), "false"
+            okv = v.variants.get(0)
+            if okv is None:
+                return a[1], "false"
+            return merge("(= %s 0)" % v.disc, okv[0], a[1]), "false"
+        m = re.fullmatch(r"(?:std|core)::option::Option::<.+>::(cloned|copied|unwrap_or|is_some|is_none)", c)
+        if m:
+            v = a[0]
+            if not isinstance(v, En):
+                raise NotTranslatable("Option method on %r" % (v,))
+            f = m.group(1)
+            if f in ("cloned", "copied"):
+                return v, "false"
+            if f == "is_some":
+                return V("bool", "(= %s 1)" % v.disc), "false"
+            if f == "is_none":
+                return V("bool", "(= %s 0)" % v.disc), "false"
+            some = v.variants.get(1)
+            if some is None:
+                return a[1], "false"
+            return merge("(= %s 1)" % v.disc, some[0], a[1]), "false"
         # crate-local function: inline when translatable
         target = self.resolve_local(c, fn)
         if target is not None and depth < self.inline_depth:
@@ -975,7 +1085,8 @@ class Translator:
             if callee.startswith(("std::rt::begin_panic", "core::panicking::", "std::panicking::")) or nxt is None:
                 return None, "true"
             saved = self._pending_panic
-            val, p = self.call(st, callee, split_top(args), fn, depth)
+            dty = fn.locals.get(dest.strip()) if dest and re.fullmatch(r"_\d+", dest.strip()) else None
+            val, p = self.call(st, callee, split_top(args), fn, depth, dty)
             self._pending_panic = saved
             if dest and val is not None:
                 self.assign(st, dest, val)
@@ -992,6 +1103,20 @@ class Translator:
         if v.ty == "bool":
             return v.t if k else lnot(v.t)
         return "(= %s %s)" % (v.t, e.int_const(v.ty, k))
+
+
+class LazyEnv:
+    """closure environment: captured variables become fresh symbolic values of the type the projection states"""
+
+    def __init__(self, name="env"):
+        self.name = name
+        self.fields = {}
+        self.syms = []
+
+    def field(self, k, ty, tr):
+        if k not in self.fields:
+            self.fields[k] = tr.sym_of_type(ty, "%s_%d" % (self.name, k), self.syms)
+        return self.fields[k]
 
 
 class _Disc:
@@ -1018,7 +1143,7 @@ def kernel(fns, name, mode="bv", arg_names=None):
         if t0.startswith("mut "):
             t0 = t0[4:]
         if "{closure@" in t0:
-            args.append(Opaque("env"))
+            args.append(LazyEnv("env"))
             continue
         if t0 in INT_W or t0 in ("f64", "bool"):
             sym = (arg_names[len(syms)] if arg_names and len(syms) < len(arg_names) else "a%d" % len(syms))
